@@ -661,3 +661,36 @@ pub fn run_entry(b: B, s: &S) -> String {
         other => panic!("stmt {}", other),
     }
 }
+
+/// inject <backend> <sexp>: `<inject_parameters(build())-hex> <to_string-hex>`
+macro_rules! inject_b {
+    ($qb:expr, $q:expr) => {{
+        let q = $q;
+        let (sql, vals) = q.build($qb);
+        format!("{} {}", hexs(&inject_parameters(&sql, vals.0, &$qb)), hexs(&q.to_string($qb)))
+    }};
+}
+macro_rules! inject_any {
+    ($b:expr, $q:expr) => {
+        match $b {
+            B::My => inject_b!(MysqlQueryBuilder, $q),
+            B::Pg => inject_b!(PostgresQueryBuilder, $q),
+            B::Sl => inject_b!(SqliteQueryBuilder, $q),
+        }
+    };
+}
+pub fn run_inject(b: B, s: &S) -> String {
+    let mut log = vec![];
+    match s.head() {
+        "select" => inject_any!(b, &select(s)),
+        "insert" => inject_any!(b, &insert(s, &mut log)),
+        "update" => inject_any!(b, &update(s)),
+        "delete" => inject_any!(b, &delete(s)),
+        "withq" => inject_any!(b, &withquery(s)),
+        _ => {
+            let mut q = Query::select();
+            q.expr(expr(s));
+            inject_any!(b, &q)
+        }
+    }
+}
